@@ -48,7 +48,19 @@ def gen_argv(rng, shape=None):
     tail = []
     if rng.random() < 0.3:
         tail = [rng.choice(WRITE)] + [rng.choice(KINDS) for _ in range(rng.choice([0, 1, 1, 2]))]
+        if len(tail) > 1 and rng.random() < 0.25:
+            # a flag written after the kinds (the documentation leaves open what it is: only the tie with the model reads
+            # these command lines, the statement-level oracle does not)
+            tail.insert(rng.randint(2, len(tail)), rng.choice(['-1', '-0', '-v1', '-W']))
     return [PROG] + body + tail
+
+
+def flag_after_write(argv):
+    """a token that looks like an option after the write option (kind or flag? the documentation does not say)"""
+    for i, a in enumerate(argv):
+        if a in WRITE:
+            return any(b.startswith('-') for b in argv[i + 1:])
+    return False
 
 
 def spec_argv(argv):
@@ -455,6 +467,8 @@ class C19(core.Prop):
             argv = case['argv']
             if not argv or argv[0] in WRITE + LONG_TDDA or argv[0].startswith('-'):
                 return F   # no program name: not a command line
+            if flag_after_write(argv):
+                return F
             want = spec_argv(argv)
             got = run_set_flags(argv)
             if want['err']:
